@@ -188,6 +188,23 @@ func (g *gen) pinnedWitnesses() {
 		}
 		g.pin(19, "s := []string{\"a\"}; s[0] = 1.5", how, describe(o))
 	}
+	// 21: maps whose key type is a NAMED type cannot be used at all
+	{
+		type SK string
+		vm := otto.New()
+		Must(vm.Set("m", map[SK]int{"a": 10}))
+		o := RunJS(vm, "m.a")
+		how := 2
+		switch {
+		case o.Panic != nil:
+			how = 0
+		case o.Err == nil && o.Val.IsNumber():
+			if n, _ := o.Val.ToInteger(); n == 10 {
+				how = 1
+			}
+		}
+		g.pin(21, "type SK string; m := map[SK]int{\"a\": 10}; m.a", how, describe(o))
+	}
 	// 20: negative / huge length
 	for _, src := range []string{"f({length: -1})", "s.length = 1e18"} {
 		vm := otto.New()
